@@ -22,7 +22,7 @@ RULE = ("each run = one or two timers with drawn interval {0,1,2,5}, awkward sta
         "value for a while, a callback function that had another name before, a timer whose handle nobody keeps")
 ASSUMPTIONS = [
     "tolerance of one clock resolution plus 4 ulp on boundary comparisons; a callback end that coincides with a boundary may arm either neighbour",
-    "behaviour after a callback raised is unspecified by the property: only 'no early / no double tick' is still checked",
+    "a callback that raises did not 'return true': the timer is over - no tick afterwards, .timerc then answers 0 (there is no live timer to stop)",
     "callbacks run on the klongloop, as production does; redefinition happens between ticks",
 ]
 REAL_STUB = {
@@ -35,7 +35,7 @@ EXPECTED_PROBES = ["probe_dispatch_exact", "probe_dispatch_early", "probe_dispat
                    "probe_redefine", "probe_callback_raised", "probe_interval0", "probe_true_return_other_than_1",
                    "probe_callback_name_rebound_to_value", "probe_tick_while_name_holds_a_value",
                    "probe_callback_function_known_under_another_name_before", "probe_timer_whose_handle_is_not_kept",
-                   "probe_computed_interval", "probe_timer_created_again_after_raise", "probe_timer_created_again_after_stop",
+                   "probe_computed_interval", "probe_timer_created_again_after_raise", "probe_timer_created_again_after_stop", "probe_timerc_after_callback_raised",
                    "probe_cancel_from_another_thread", "probe_thread_cancel_overlaps_callback",
                    "line_preemptions_hot"]
 WALL_CAP = {"quick": 300, "thorough": 3600}
@@ -170,9 +170,13 @@ def scenario(ch, cfg):
         raise RuntimeError("scripted callback failure")
 
     def raised(x):
+        # "for as long as the callback returns true": a callback that fails did not return true - the timer is over, it never
+        # ticks again and there is nothing left for .timerc to stop
         T = timers[int(x)]
         if T["raised_at"] is None:
             T["raised_at"] = len(T["ticks"]) - 1
+            if T["stopped_at"] is None:
+                T["stopped_at"] = ("raise", len(T["ticks"]) - 1, w.now)
         stats["probe_callback_raised"] += 1
         return 0
 
@@ -417,7 +421,7 @@ def scenario(ch, cfg):
         tolb = lambda x: res + 4 * _ulp(max(abs(x), abs(start), 1.0)) + 1e-12   # noqa
         # (1) nothing after stop / successful timerc
         for e in ticks:
-            if e["after_stop"] and not e["after_raise"]:
+            if e["after_stop"]:
                 why = T["stopped_at"]
                 sig = "C15:tick-after-timerc-in-own-callback" if (why[0] == "timerc" and any(
                     c["who"] == "self" and c["ret"] == 1 for c in T["timerc"])) else f"C15:tick-after-{why[0]}"
@@ -426,15 +430,17 @@ def scenario(ch, cfg):
                 break
         # (2) .timerc result == model liveness
         for c in T["timerc"]:
-            if c["after_raise"] or c.get("unjudged"):
+            if c.get("unjudged"):
                 continue
+            if c["after_raise"]:
+                stats["probe_timerc_after_callback_raised"] += 1
             if c["ret"] != (1 if c["model_live"] else 0):
                 violations.append({"sig": f"C15:timerc-returns-{c['ret']}-for-{'live' if c['model_live'] else 'dead'}-timer:{c['who']}",
                                    "msg": f"timer {tid}: .timerc issued by {c['who']} at t={c['t']!r} returned {c['ret']}, model says live={c['model_live']}"})
                 break
         # (2b) a timer can be stopped by .timerc at most once, however the cancellations overlap
-        wins = [c for c in T["timerc"] if c["ret"] == 1 and not c["after_raise"]]
-        if len(wins) > 1 and T["raised_at"] is None:
+        wins = [c for c in T["timerc"] if c["ret"] == 1]
+        if len(wins) > 1:
             violations.append({"sig": "C15:two-timerc-report-success-for-one-timer", "msg": f"timer {tid}: .timerc returned 1 {len(wins)} times "
                                f"(issued by {[c['who'] for c in wins]} at t={[c['t'] for c in wins]}); a timer is live until it is stopped once"})
         # (3) version re-resolution
